@@ -40,6 +40,8 @@ PROP = "C21"
 # Active only when known_findings.json lists the key for C21 or VERIF_C21_EXCLUDE=<key,..|all>
 # forces it (`none` forces it off).
 EXCLUDE = {
+    # stage 2: a borrowed tuple whose copyable element is a bare variable (see vlib/c21_bodies.py)
+    "borrowed_tuple_alias": "tuple with a bare-variable copyable element lent to a call that replaces it",
     # DunderMixin.__rrshift__ dispatches to `__pow__`: `const >> traced int` computes traced ** const
     "reflected.rshift": "Python constant >> traced int",
 }
@@ -47,6 +49,7 @@ EXCLUDE = {
 
 # fixed input of the class (known_findings.json probe): `2 >> a` with a = 3 -> @guppy 0, comptime 9
 PROBES = {
+    "borrowed_tuple_alias": {"body": {"stmts": [["tborrow", "s", "a", 0, "n"]], "inputs": [[1, 2, 3, 4, 6, 3]]}},
     "reflected.rshift": {"expr": {"k": "bin", "op": ">>", "l": {"k": "c", "v": "2", "t": "int"},
                                   "r": {"k": "p", "n": "a", "t": "int"}, "t": "int"}, "inputs": [{"a": "3"}]},
 }
@@ -491,6 +494,15 @@ def describe(case):
 
 
 def replay(case):
+    if "probe" in case:
+        case = PROBES[case["probe"]]
+    if "body" in case:  # stage 2: statement-sequence body
+        from vlib import c21_bodies
+
+        vs, stt = c21_bodies.run_cases([case["body"]], exclude_alias=bool(case.get("exclude_alias")))
+        if stt != "ok":
+            raise harness.HarnessError(str(stt))
+        return vs[0] if isinstance(vs[0], tuple) else None
     case = {"expr": case["expr"], "inputs": case["inputs"]}
     r = run_cases([case])[0]
     if r["status"] in ("mismatch", "onesided"):
@@ -1044,6 +1056,65 @@ def worker(ctx):
     if tot["n"] >= 60 and tot["both_reject"] > 0.03 * tot["n"]:
         ctx.harness_error(f"{tot['both_reject']}/{tot['n']} generated bodies were rejected by both modes "
                           f"(generator leaves the common fragment)")
+    # ---- stage 2: statement-sequence bodies over containers and borrowing calls (vlib/c21_bodies.py)
+    from vlib import c21_bodies as CB
+
+    X = CB.ALIAS_KEY in excl
+    pend2 = []
+    seen2 = {}
+
+    def body2(cases):
+        vs, stt = CB.run_cases(cases, exclude_alias=X)
+        if stt != "ok":
+            ctx.harness_error(f"stage 2: {stt}")
+            return
+        for c, v in zip(cases, vs):
+            if CB.alias_class(c) and X:
+                ctx.exclude("borrowed_tuple_alias: bare-variable element of a lent tuple written as `(x + 0)`")
+            if v == "unsupported":
+                ctx.unsupported_case("selene could not build/run the program")
+                continue
+            if v == "outside":
+                tot["n2_out"] = tot.get("n2_out", 0) + 1
+                ctx.label("B:both_reject")
+                ctx.sample("B:both_reject", {"body": CB.render_body(c, X)})
+                continue
+            tot["n2"] = tot.get("n2", 0) + 1
+            nt = CB.nontrivial(c) and v is None
+            ctx.case(["B", c["stmts"], c["inputs"]], nt, labels=["B"] + CB.labels(c),
+                     sample={"stage2_body": CB.render_body(c, X), "inputs": c["inputs"]} if nt else None)
+            if isinstance(v, tuple):
+                cur = seen2.get(v[0])
+                if cur is None or len(c["stmts"]) < len(cur[0]["stmts"]):
+                    seen2[v[0]] = (c, v)
+
+    def collect2(c):
+        pend2.append(c)
+        if len(pend2) >= ctx.params["batch2"]:
+            b = list(pend2)
+            del pend2[:]
+            body2(b)
+
+    harness.hyp_search(ctx, CB.bodies(), collect2, max_examples=ctx.params["n2"] * ctx.params["batch2"],
+                       chunk=ctx.params["batch2"] * 2, time_frac=0.85, extra_seed=13)
+    if pend2 and not ctx.out_of_time(0.85):
+        body2(list(pend2))
+    if tot.get("n2_out", 0) > 0.03 * max(30, tot.get("n2", 0)):
+        ctx.harness_error(f"stage 2: {tot['n2_out']} bodies rejected by both modes (generator leaves the common fragment)")
+    for b, (c, v) in sorted(seen2.items()):
+        # minimise: drop statements while the bucket stays
+        cur = c
+        changed = True
+        while changed and not ctx.out_of_time(0.93):
+            changed = False
+            for k in range(len(cur["stmts"])):
+                cand = dict(cur, stmts=cur["stmts"][:k] + cur["stmts"][k + 1:])
+                vs, stt = CB.run_cases([cand], exclude_alias=X)
+                if stt == "ok" and isinstance(vs[0], tuple) and vs[0][0] == b:
+                    cur, v, changed = cand, vs[0], True
+                    break
+        ctx.violation(b, {"body": cur, "exclude_alias": X}, v[1])
+
     # localise: smallest disagreeing subexpression names the root cause; small cases first
     done = set()
     for key, (case, r) in sorted(found.items(), key=lambda kv: size(kv[1][0]["expr"])):
@@ -1071,15 +1142,20 @@ SPEC = harness.Spec(
           "non-zero, shift amounts / exponents 0..6); the same body text is compiled under @guppy and @guppy.comptime and both are "
           "run from one main (B cases per emulated program); each run starts with the enumeration of all 74 reflected forms constant-OP-traced "
           "(x2 constants, split over the shards). non-trivial = case accepted by both modes with equal streams whose body "
-          "has a Python constant as *left* operand of an operator applied to a traced value; distinct = distinct (body, type, inputs)"),
+          "has a Python constant as *left* operand of an operator applied to a traced value; distinct = distinct (body, type, inputs). "
+          "Stage 2: straight-line bodies of 2-7 statements over non-copyable structs (array + int + tuple fields), a nested struct, a "
+          "local array and a tuple holding an array: borrowing calls that mutate or replace the value (mem_swap in the callee or the "
+          "body), reads of fields / elements / tuple components / plain variables afterwards, element assignment, tuple unpacking, "
+          "consume-and-rebind; same text under both decorators, 12 bodies x 2 inputs per emulated program; non-trivial there = a "
+          "mutating borrow followed by a read, both modes agreeing"),
     assumptions=["operations the generator uses are the ones the statement lists as common to both modes (pinned on the unchanged tree): "
                  "a one-sided rejection is reported as availability.* instead of being dropped as out of domain",
                  "constant-only operator applications are not generated (CPython would evaluate them in comptime mode: that compares "
                  "Guppy arithmetic with Python arithmetic, which is C04)",
                  "selene 0.4.3 executes the lowered copy of the package (compat bridge, DESIGN.md 1.2); runtime float // % not generated (no ffloor)"],
     shards={"quick": 16, "thorough": 16},
-    budget_s={"quick": 90, "thorough": 900},
-    params={"quick": {"n": 6, "batch": 24}, "thorough": {"n": 60, "batch": 30}},
+    budget_s={"quick": 110, "thorough": 1000},
+    params={"quick": {"n": 6, "batch": 24, "n2": 3, "batch2": 12}, "thorough": {"n": 60, "batch": 30, "n2": 40, "batch2": 12}},
     min_nontrivial=60,
 )
 
